@@ -43,6 +43,18 @@ def families(tier, seed):
             for q in ci.QINITS:
                 out.append(_mk('is_realizable', sh, moore, plus_one, q))
                 out.append(_mk('_make_init', sh, moore, plus_one, q))
+    # "with internal memory at its initial value": the initial conditions the two
+    # transducer constructions hand to _make_init (two goals: the counter has more than one value)
+    from contracts import gr1_transducers as gt
+    sh = shapes.QUICK[0]
+    for moore, plus_one in shapes.MODES:
+        for q in ci.QINITS:
+            mn = shapes.mode_name(moore, plus_one)
+            for fname, h, extra in (('make_streett_transducer', gt.h_streett_transducer, dict(L=2)),
+                                    ('make_rabin_transducer', gt.h_rabin_transducer, dict(L=2, T=2))):
+                params = dict(moore=moore, plus_one=plus_one, n_holds=1, n_goals=2, qinit=q, **extra)
+                out.append(dict(name=f'{fname} (initial condition incl. memory) qinit={q} {mn} {sh.name}',
+                                run=(lambda h=h, params=params: harness.verify(h, sh, params)), label='per-shape'))
     return out
 
 
